@@ -216,7 +216,7 @@ fn one_record(s: &mut Session, st: &mut Stats, label: &str, rec: &[u8], flags: u
             (Dec::Simple { head: h0, ends: e0, pts: p0, fast: f0, instr: i0, flag_bytes_le_points: le, .. }, Dec::Simple { head: h1, ends: e1, pts: p1, fast: f1, instr: i1, .. }) => {
                 s.count(if *le { "outline:simple:written:flag-bytes<=points" } else { "outline:simple:written:flag-bytes>points" });
                 let want_i: &[u8] = if flags & F_NO_HINTING != 0 { &[] } else { i0 };
-                h0 == h1 && e0 == e1 && p0 == p1 && (!*le || f0 == f1) && want_i == &i1[..]
+                h0 == h1 && e0 == e1 && p0 == p1 && f0 == f1 && want_i == &i1[..]
             }
             (Dec::Composite { .. }, Dec::Composite { .. }) => {
                 s.count("outline:composite:written");
